@@ -161,9 +161,11 @@ class QFunction(QToken):
         name = string[:arg_start]
         # Parse arguments
         args = []
-        args_str = string[arg_start + 1 : arg_end]
+        args_str = string[arg_start + 1 : arg_end].strip()
         while args_str:
             (arg_t, arg), args_str = _parse_token(args_str, namespace)
+            if not arg_t:
+                raise QueryParseException("Function expected an argument, got nothing")
             comma = args_str.find(",")
             if comma != -1:
                 args_str = args_str[comma + 1 :]
@@ -230,6 +232,8 @@ class QDict(QToken):
         d: Dict[str, QToken] = {}
         while len(entries_str) > 0:
             entries_str = entries_str.strip()
+            if not entries_str:
+                break
             if len(d) > 0 and entries_str[0] == ",":
                 entries_str = entries_str[1:]
             # parse key
@@ -239,7 +243,7 @@ class QDict(QToken):
             key = QString.parse(key_str, {}).value
             entries_str = entries_str.strip()
             # Remove :
-            if entries_str[0] != ":":
+            if not entries_str.startswith(":"):
                 raise QueryParseException("Key in dict is not followed by a :")
             entries_str = entries_str[1:]
             # parse val
@@ -295,6 +299,8 @@ class QList(QToken):
         ls: List[QToken] = []
         while len(entries_str) > 0:
             entries_str = entries_str.strip()
+            if not entries_str:
+                break
             if len(ls) > 0 and entries_str[0] == ",":
                 entries_str = entries_str[1:]
             # parse
@@ -343,9 +349,9 @@ def _parse_token(string: str, namespace: dict) -> Tuple[Tuple[Any, str], str]:
         raise QueryParseException(
             "Reached unreachable, cannot parse something that isn't a string"
         )
+    string = string.strip()
     if len(string) == 0:
         return (None, ""), string
-    string = string.strip()
     token = None
     t = None  # Declare so we can return it
     for t in qtypes:
@@ -381,6 +387,8 @@ def parse(line, namespace):
     if var_t is not QVariable:
         raise QueryParseException("Cannot assign to a non-variable")
     (val_t, val), var_str = _parse_token(val_str, namespace)
+    if not val_t:
+        raise QueryParseException("Nothing to assign")
     if var_str:  # Didn't consume whole val string
         raise QueryParseException("Invalid syntax for value to assign")
     # Parse token
